@@ -378,6 +378,10 @@ def run(ctx):
     r = core.call_impl(lambda _: schema_independence_case(), None)
     if r != "ok":
         ctx.fail("tl-schemas-share-state", r, {"schemas": r})
+    # integers outside the field's range must not be encoded as some other value (refused, or at least coming back unchanged)
+    r = core.call_impl(lambda _: int_range_case(), None)
+    if r != "ok":
+        ctx.fail("tl-integer-out-of-range", r, {"intrange": r})
     # block id helpers
     for _ in range(ctx.n(50, 500)):
         r = core.call_impl(lambda _: blockid_case(rng), None)
@@ -414,6 +418,30 @@ def shadowed(v, lib):
     if v[0] == "v":
         return any(shadowed(x, lib) for x in v[1])
     return False
+
+
+def int_range_case():
+    sc = schemas()
+    t = sc.get_by_name("tonNode.blockId")
+    base = {"workchain": 0, "shard": 1, "seqno": 2}
+    for field, vals in (("workchain", [1 << 31, (1 << 32) - 1, -(1 << 31) - 1, 1 << 40]), ("seqno", [1 << 31, (1 << 32) - 1]),
+                        ("shard", [1 << 63, (1 << 64) - 1, -(1 << 63) - 1, 1 << 70])):
+        for v in vals:
+            d = dict(base)
+            d[field] = v
+            try:
+                data = sc.serialize(t, d)
+            except Exception:
+                continue            # refused: fine
+            back = sc.deserialize(data)[0]
+            if back.get(field) != v:
+                return f"{field}={v} was encoded and parses back as {back.get(field)}"
+    # in-range boundaries are accepted and come back
+    for d in ({"workchain": -(1 << 31), "shard": -(1 << 63), "seqno": (1 << 31) - 1}, {"workchain": (1 << 31) - 1, "shard": (1 << 63) - 1, "seqno": 0}):
+        back = sc.deserialize(sc.serialize(t, d))[0]
+        if any(back.get(k) != v for k, v in d.items()):
+            return f"in-range boundary values {d} came back as {back}"
+    return "ok"
 
 
 def schema_independence_case():
@@ -474,6 +502,9 @@ def blockid_case(rng):
 
 def replay(ctx, obj):
     c = obj["case"]
+    if "intrange" in c:
+        r = core.call_impl(lambda _: int_range_case(), None)
+        return None if r == "ok" else r
     if "schemas" in c:
         r = core.call_impl(lambda _: schema_independence_case(), None)
         return None if r == "ok" else r
